@@ -267,6 +267,20 @@ def check_tokens(acc, pendulum, z, f, loc, pairs=False):
         acc.c["evaluations"] += 1
         if got != ("ok", want):
             acc.mismatch("literal", "escape", dict(case, fmt=fmt), got, want)
+    # every token spelling (the localized-format tokens LT .. LLLL included) and some words made of token letters, escaped:
+    # emitted verbatim, next to a live token
+    for lit in (list(TOKENS) + ["Local time:", "Day", "Month Year", "AM at Zone", "h", "Hmm"]) if loc in ("en", "fr") else ():
+        for fmt, want in ((f"[{lit}] HH", f"{lit} {singles['HH']}"), (f"YYYY[{lit}]", f"{singles['YYYY']}{lit}")):
+            got = _fmt(x, fmt, loc)
+            acc.c["evaluations"] += 1
+            if got != ("ok", want):
+                acc.mismatch("literal", "escaped-token-text", dict(case, fmt=fmt), got, want)
+    for ch in "YQMDdEHhmsSAaZzXxLTWwo":
+        fmt = f"HH\\{ch}mm"
+        got = _fmt(x, fmt, loc)
+        acc.c["evaluations"] += 1
+        if got != ("ok", singles["HH"] + ch + singles["mm"]):
+            acc.mismatch("literal", "backslash-escaped-letter", dict(case, fmt=fmt), got, singles["HH"] + ch + singles["mm"])
 
 
 DEFAULT_LOCALES = ("fr", "ru")
